@@ -659,7 +659,10 @@ def run_spec(spec, fns, mode, solver, cross=None):
     for fut, p, kind, base, label, term in jobs:
         r, out, r2 = fut.result()
         if r == "unsat":
-            if cross is not None and r2 != "unsat":
+            if cross is not None and r2 == "unknown":
+                # the second solver gave up (time limit): the obligation stands on the first solver's answer alone
+                rep["not_cross_checked"] = rep.get("not_cross_checked", 0) + 1
+            elif cross is not None and r2 != "unsat":
                 rep["inconclusive"].append("solvers disagree on `%s` (%s vs %s)" % (label, r, r2))
                 continue
             rep["discharged"] += 1
@@ -706,7 +709,7 @@ def part(prop):
                 r = run_spec(spec, fns, mode, solver, cross)
                 rep["coverage"]["obligations"] += r["obligations"]
                 rep["coverage"]["discharged"] += r["discharged"]
-                rep["coverage"]["kernels"].append({k: r[k] for k in ("kernel", "mode", "paths", "feasible_paths", "obligations", "discharged")})
+                rep["coverage"]["kernels"].append({k: r.get(k, 0) for k in ("kernel", "mode", "paths", "feasible_paths", "obligations", "discharged", "not_cross_checked")})
                 rep["coverage"]["samples"] += r["samples"][:1]
                 if r["obligations"]:
                     rep["coverage"]["functions"].append("any_vec::%s [MIR, overflow-checks=%s]" % (spec.key, mode))
